@@ -16,8 +16,12 @@ import (
 func init() { register("C11", genC11) }
 
 // runRandomL1 runs n random histories and returns their Coq texts.
+// c11Step, when set by a stream, replaces sc.RandomStep for that stream (it falls back to it).
+var l1StepHook func(sc *L1Scenario)
+
 func runRandomL1(rep *Report, tt *termTable, seed uint64, firstID, n, length int, w L1Weights, setup func(sc *L1Scenario), mons []L1Monitor, kindsOfInterest []string) []string {
 	var texts []string
+	step := l1StepHook
 	for k := 0; k < n; k++ {
 		c := RunL1Twice(seed*100000+uint64(k), firstID+k, func(sc *L1Scenario) {
 			sc.wts = w
@@ -25,7 +29,11 @@ func runRandomL1(rep *Report, tt *termTable, seed uint64, firstID, n, length int
 				setup(sc)
 			}
 			for i := 0; i < length; i++ {
-				sc.RandomStep()
+				if step != nil {
+					step(sc)
+				} else {
+					sc.RandomStep()
+				}
 			}
 		}, rep)
 		okK, errK := map[string]bool{}, map[string]bool{}
@@ -57,6 +65,41 @@ func runRandomL1(rep *Report, tt *termTable, seed uint64, firstID, n, length int
 		texts = append(texts, l1CaseText(c, tt))
 	}
 	return texts
+}
+
+// c11Step: every fourth step is a proposal by the RIGHT proposer at the RIGHT index whose L2 block
+// number is a boundary value: 0 (legal only as the first output), the previous number, one less,
+// one more, 2^64-1 (after which nothing can be proposed).  Otherwise the generic random step.
+func c11Step(sc *L1Scenario) {
+	e, r := sc.Env, sc.R
+	ex := sc.existingBridges()
+	if len(ex) == 0 || !r.Chance(25) {
+		sc.RandomStep()
+		return
+	}
+	b := ex[r.Intn(len(ex))]
+	prop, _, _, ok := sc.Config(b)
+	if !ok {
+		sc.RandomStep()
+		return
+	}
+	next, _ := e.K.GetNextOutputIndex(e.Ctx, b)
+	last := uint64(0)
+	if next > 1 {
+		if o, err := e.K.GetOutputProposal(e.Ctx, b, next-1); err == nil {
+			last = o.L2BlockNumber
+		}
+	}
+	l2 := []uint64{0, last, last - 1, last + 1, ^uint64(0)}[r.Weighted([]int{35, 20, 10, 25, 10})]
+	if r.Chance(40) {
+		sc.Advance(sec)
+	}
+	pt := sc.MakeTree(b, 1+r.Intn(3))
+	pt.Idx = next
+	sc.reg(prop)
+	if res := sc.Case.Do(sc.op(L1Op{Kind: "propose", Sender: prop, Bridge: b, Idx: next, L2: l2, Root: pt.Root})); res.OK {
+		sc.Trees = append(sc.Trees, pt)
+	}
 }
 
 // two bridges with short periods so that partly final logs are common
@@ -95,7 +138,13 @@ func c11Alphabet() []c11Sym {
 	prop := func(b uint64, signer uint64, dIdx int, dL2 int, tag byte) func(sc *L1Scenario) L1Op {
 		return func(sc *L1Scenario) L1Op {
 			next, last := nextLast(sc, b)
-			return sc.op(L1Op{Kind: "propose", Sender: sc.Env.User(signer).Str, Bridge: b, Idx: uint64(int(next) + dIdx), L2: uint64(int(last) + dL2), Root: root(sc, tag)})
+			return sc.op(L1Op{Kind: "propose", Sender: sc.Env.User(signer).Str, Bridge: b, Idx: uint64(int(next) + dIdx), L2: last + uint64(int64(dL2)), Root: root(sc, tag)})
+		}
+	}
+	propAbs := func(b uint64, signer uint64, l2 uint64, tag byte) func(sc *L1Scenario) L1Op {
+		return func(sc *L1Scenario) L1Op {
+			next, _ := nextLast(sc, b)
+			return sc.op(L1Op{Kind: "propose", Sender: sc.Env.User(signer).Str, Bridge: b, Idx: next, L2: l2, Root: root(sc, tag)})
 		}
 	}
 	del := func(b uint64, who func(sc *L1Scenario) string, idx uint64) func(sc *L1Scenario) L1Op {
@@ -121,6 +170,8 @@ func c11Alphabet() []c11Sym {
 		{"d1@1x", 0, del(1, user(4), 1)},         // challenger of the OTHER bridge
 		{"p1low", 0, prop(1, 1, 0, -1, 7)},       // lower L2 block number
 		{"d1@1+1s", sec, del(1, user(2), 1)},     // challenger deletes from 1 one second later (partly final log)
+		{"p1zero", 0, propAbs(1, 1, 0, 8)},                 // L2 block 0 (legal at index 1 only; then p1eq / p1low / p1zero must fail)
+		{"p1max", 0, propAbs(1, 1, ^uint64(0), 9)},         // L2 block 2^64-1: nothing can follow it
 	}
 }
 
@@ -213,14 +264,25 @@ func genC11(seed uint64, tier, outdir string) *Report {
 	interest := []string{"propose", "delete"}
 	tt := newTermTable()
 	// exhaustive scripts first: their (short) histories are the first to be reported
-	texts := genC11Exhaustive(rep, tt, seed, 1, alphabet, depth)
+	first := alphabet
+	if tier == "thorough" { // depth 4 without the two most redundant rejections (p1stale, d1@1x)
+		first = nil
+		for _, s := range alphabet {
+			if s.Name != "p1stale" && s.Name != "d1@1x" {
+				first = append(first, s)
+			}
+		}
+	}
+	texts := genC11Exhaustive(rep, tt, seed, 1, first, depth)
 	if tier == "thorough" {
-		// deeper, over the core alphabet (no redundant rejections)
-		core := []c11Sym{alphabet[0], alphabet[1], alphabet[2], alphabet[5], alphabet[7], alphabet[12]}
+		// deeper, over the core alphabet: p1, p1+1s, p1eq, p1zero, d1@2+1s, d1@1+1s
+		core := []c11Sym{alphabet[0], alphabet[1], alphabet[2], alphabet[13], alphabet[7], alphabet[12]}
 		texts = append(texts, genC11Exhaustive(rep, tt, seed, 1+len(texts), core, 5)...)
 	}
 	texts = append(texts, runRandomL1(rep, tt, seed, 1+len(texts), nA, length, w, nil, mons, interest)...)
+	l1StepHook = c11Step
 	texts = append(texts, runRandomL1(rep, tt, seed+7777, 1+len(texts), nB, length, w2, twoBridgeSetup(2*sec, 5*sec), mons, interest)...)
+	l1StepHook = nil
 	writeShardsTerms(outdir, "C11", l1CaseHeader, "run_l1case", "l1case", texts, 16, rep, tt)
 	return rep
 }
